@@ -40,7 +40,11 @@ def gen_hist(rng, maxcalls):
         iv = "none" if rng.random() < 0.25 else hx(g.rbytes(rng, 16))
         if rng.random() < 0.03:
             iv = hx(g.rbytes(rng, rng.choice([0, 15, 17])))
-        ctr = rng.choice([1, 0, 2**64 - 1, 2**128 - 1, 2**128 - 2, 2**128, 2**128 + 5, rng.randrange(2**128)])
+        # carries across every byte boundary of the 16-byte counter (the increment loop runs byte by byte), wrap-around, > 2^128
+        kb = rng.randrange(1, 16)
+        carry = (rng.randrange(1, 256 ** (16 - kb)) * 256 ** kb - rng.randrange(1, 4)) % 2 ** 128
+        ctr = rng.choice([1, 0, 2**64 - 1, 2**128 - 1, 2**128 - 2, 2**128, 2**128 + 5, rng.randrange(2**128), carry, carry,
+                          2**120 - 1, 2**120 - 2])
         seg = rng.choice([1, 1, 2, 4, 8, 16, 0, 3])
         steps.append(f"new,{s},{kind},{hx(key)},{iv},{ctr},{seg}")
         feeder = rng.random() < 0.5
@@ -135,12 +139,29 @@ def run(ctx):
     ctx.correspond(ch, "chunking")
     # property on the real code against the independent reference
     ctx.check_props([f"prop.aesblock {k} {b}" for k, b in blocks], "prop.aesblock")
+    ctx.check_props(mode_props(rng, 300 if ctx.quick else 6000), "prop.aesmode")
     ctx.check_props([f"prop.adapter {k} {iv} {d}" for k, iv, d in ad if d != "-"], "prop.adapter")
     ctx.check_props([f"prop.adapterhist {k} {iv} {d} {hx(g.gen_key(rng))} {hx(g.rbytes(rng, rng.randrange(1, 40)))}"
                      for k, iv, d in ad[1:80]], "prop.adapterhist")
 
 
+def mode_props(rng, n):
+    out = []
+    for _ in range(n):
+        kind = rng.choice(["ecb", "cbc", "cfb", "ofb", "ctr", "ctr"])
+        key = g.rbytes(rng, rng.choice([16, 24, 32]))
+        kb = rng.randrange(1, 16)
+        carry = (rng.randrange(1, 256 ** (16 - kb)) * 256 ** kb - rng.randrange(1, 4)) % 2 ** 128
+        ctr = rng.choice([1, 0, 2 ** 128 - 1, 2 ** 128 - 3, 2 ** 120 - 1, carry, carry, rng.randrange(2 ** 128)])
+        seg = rng.choice([1, 2, 4, 8, 16])
+        data = g.rbytes(rng, rng.choice([0, 16, 33, 64, 100, 160]))
+        cuts = ",".join(str(rng.randrange(0, 200)) for _ in range(rng.randrange(0, 4)))
+        out.append(f"prop.aesmode {kind} {hx(key)} {hx(g.rbytes(rng, 16))} {ctr} {seg} {hx(data) or '-'} {cuts or '-'} {rng.choice(['enc', 'dec'])}")
+    return out
+
+
 def search(ctx):
     rng = ctx.rng
+    ctx.check_props(mode_props(rng, 3000), "search.aesmode")
     ctx.check_props([f"prop.aesblock {hx(g.rbytes(rng, rng.choice([16, 24, 32])))} {hx(g.rbytes(rng, 16))}"
                      for _ in range(3000)], "search.aesblock")
